@@ -20,7 +20,7 @@ META = dict(
     level='proof',
     technique='Coq proof about a transcription of auto_xact_t::extend_xact / post_pred / xact_base_t::verify / the add_xact rule loop (extension = input ++ concat_map over the matching non-generated postings; generated postings never re-match for any number and order of rules; rules only reach later transactions; exact multiplication; the memoised quick matcher equals the full predicate; unbalanced extension rejected) + differential correspondence against ledger',
     level_text='Theorems in coq/Properties/Properties_C16.v are stated for the executable model of extend_xact (snapshot loop skipping the postings made by rules: ITEM_GENERATED without POST_CALCULATED, quick matcher with memo and fallback, amount multiply/copy, flags and state of the new posting, verify when a new posting must balance) inside the journal loop that keeps the rule list in file order and applies it after finalize. The model is tied to the code by running whole generated journals through ledger and through the extracted model and comparing, per transaction, acceptance and error class and, per posting, account, kind, exact rational amount and precision counter, cost, flags and state.',
-    level_note='How extend_xact registers the rule line\'s account the second time is read from the source on every run (Gen/AutoXactRoot.src_extend_realias) and selects the model\'s behaviour and the theorem in force (Properties_C16.generated_posting_account_in_force): with alias expansion active there (unrepaired code, known finding F120) the aliases in force at the transaction hit the account again, the model does the same (realias) and generated_posting_has_line_account_refuted applies; with expansion switched off around the call (patch /tmp/agents/c16/patches/F120.diff) the alias table never reaches rule lines and generated_posting_has_line_account applies. The oracle always requires the account the line names at the rule\'s place (key rule-line-account-re-aliased). Account names reach the model RESOLVED (master account, apply account, one alias round at the place of the posting / rule line), computed by the harness; that rule lines and postings use the same root (top_account()) is regenerated from the source into Gen/AutoXactRoot.v and required by rule_lines_resolve_like_postings. F33 (rules skipped the postings finalize makes for the second and later commodities of an elided amount) was repaired by /repo e69e5ce; the model follows the fixed code (a posting is skipped only when ITEM_GENERATED without POST_CALCULATED), Properties_C16.journal_extension_every_posting is the full statement and the oracle key elided-commodity-posting-not-matched is a violation. Trusted as C01 (finalize is the C01/C02 model). Regular expressions are restricted to literal, case-insensitive substrings; predicates to account / payee matches and `amount < LIT`, `amount > LIT` under ! & |. Not modelled: rule lines with costs or amount expressions, `$account` and %(format) account names, notes/tags and assert/check lines of a rule, --strict/--pedantic, period transactions.',
+    level_note='How extend_xact registers the rule line\'s account the second time is read from the source on every run (Gen/AutoXactRoot.src_extend_realias) and selects the model\'s behaviour and the theorem in force (Properties_C16.generated_posting_account_in_force): with alias expansion active there (the code before /repo 3f98a1d, finding F120) the aliases in force at the transaction hit the account again, the model does the same (realias) and generated_posting_has_line_account_refuted applies; with expansion switched off around the call (the repaired code, /repo 3f98a1d) the alias table never reaches rule lines and generated_posting_has_line_account applies. The oracle always requires the account the line names at the rule\'s place (key rule-line-account-re-aliased). Account names reach the model RESOLVED (master account, apply account, one alias round at the place of the posting / rule line), computed by the harness; that rule lines and postings use the same root (top_account()) is regenerated from the source into Gen/AutoXactRoot.v and required by rule_lines_resolve_like_postings. F33 (rules skipped the postings finalize makes for the second and later commodities of an elided amount) was repaired by /repo e69e5ce; the model follows the fixed code (a posting is skipped only when ITEM_GENERATED without POST_CALCULATED), Properties_C16.journal_extension_every_posting is the full statement and the oracle key elided-commodity-posting-not-matched is a violation. Trusted as C01 (finalize is the C01/C02 model). Regular expressions are restricted to literal, case-insensitive substrings; predicates to account / payee matches and `amount < LIT`, `amount > LIT` under ! & |. Not modelled: rule lines with costs or amount expressions, `$account` and %(format) account names, notes/tags and assert/check lines of a rule, --strict/--pedantic, period transactions.',
     design_ref='DESIGN.md section 7 C16',
     assumptions=['commodities $ EUR AAA CCC in plain styles, every amount written with its commodity\'s usual number of decimals',
                  'account and payee patterns are literal alphanumeric substrings (regex = case-insensitive substring)',
